@@ -23,7 +23,7 @@ class PRec:
     __slots__ = ('pos', 'oid', 'tid', 'prev', 'tloc', 'plen', 'back', 'data')
 
 
-def parse(data, strict=True):
+def parse(data, strict=True, check_rec_tid=True):
     """List of PTxn.  Raises FormatError on any structural problem.
     strict: also require prev pointers to name the previous record of the
     same oid in this file and back pointers to name a record of the oid."""
@@ -71,7 +71,7 @@ def parse(data, strict=True):
                 raise FormatError('version length at %d' % q)
             if tloc != pos:
                 raise FormatError('tloc %d != %d at %d' % (tloc, pos, q))
-            if status != 'u' and rtid != tid:
+            if check_rec_tid and status != 'u' and rtid != tid:
                 raise FormatError('record tid != txn tid at %d' % q)
             body = q + DHDR.size
             if plen:
